@@ -48,7 +48,7 @@ def obligations(tier):
     ]
     n = 5 if tier == "quick" else 6
     # exact-size heap objects (VP_ALLOC_EXACT): an overrun of what the functions allocate is a cbmc pointer-check failure
-    ne = 4 if tier == "quick" else 5
+    ne = 3 if tier == "quick" else 5
     DE = ["VP_N=%d" % ne, "VP_STR_OBJ=40", "VP_ALLOC_EXACT", "VP_BYTES_MAX=%d" % (3 * ne + 5)]
     obs += [
         dict(name="htmlescape_exact", harness="C29_codec.c", entry="harness_htmlescape", defines=DE, unwind=6 * ne + 2,
